@@ -16,3 +16,4 @@ func (c *channel) vpWait(point string, signal chan struct{}) {}
 func verifYield(point string, enabled func() bool) {}
 func verifYieldAt(point string, at string)         {}
 func verifYieldCh(point string, ch Channel)        {}
+func verifYieldObj(point string, obj interface{})  {}
